@@ -1,7 +1,8 @@
 // poly.cpp — harness of property C20 (polynomial / quadrature / search utilities).
 // Includes /repo/include directly and calls the real code in-process.
 //
-//   ./poly <n>        T1 lines for the run-time functions on stratified inputs (VERIF_SEED)
+//   ./poly <n> [L]    T1 lines (L = max length of the exhaustively enumerated sorted ranges, default 8);
+//                     T1 lines for the run-time functions on stratified inputs (VERIF_SEED)
 //   ./poly dump       every constexpr table the code produces, as exact hex bit patterns
 //   ./poly probe      inputs on which the implementation may crash (each run in a forked child)
 //   ./poly eval       re-evaluate request lines read from stdin with the implementation
@@ -372,7 +373,7 @@ static void gen_intabs(Rng & r, int s, std::vector<double> & x, const char *& ta
     break;
   }
   case 9: {
-    tag = "A_at_thr";  // |A| == 1e-9 exactly: neither `< 1e-9` nor `> 1e-9`
+    tag = "A_at_thr";  // |A| == 1e-9 exactly (before /repo 863c150: neither `< 1e-9` nor `> 1e-9`)
     A = r.sign() * THR; B = r.sign() * r.logu(1e-2, 1e2); C = -B * r.uni(t0, t1);
     break;
   }
@@ -455,12 +456,14 @@ static void search_line(const char * op, const std::vector<double> & rr, double 
 }
 
 // all sorted ranges of length <= 8 over a 4-letter alphabet x all queries (letters, between, below, above)
+static int g_exh_len = 8;  // all sorted ranges up to this length (second command-line argument)
+
 static void search_exhaustive(const char * op, const double * al, const char * tag)
 {
   std::vector<double> qs = {al[0] - 1.0, al[3] + 1.0};
   for (int i = 0; i < 4; ++i) qs.push_back(al[i]);
   for (int i = 0; i < 3; ++i) qs.push_back(0.5 * (al[i] + al[i + 1]));
-  for (int n = 0; n <= 8; ++n) {
+  for (int n = 0; n <= g_exh_len; ++n) {
     // multisets of size n: counts c0+c1+c2+c3 = n
     for (int c0 = 0; c0 <= n; ++c0)
       for (int c1 = 0; c0 + c1 <= n; ++c1)
@@ -575,6 +578,12 @@ static void gen_all(int n)
     gen_intabs(r, c, x, tag);
     run_line("poly_intabs", "-", x, tag);
   }
+  {
+    // fixed members of the smallA_largeB stratum (|A| just above 1e-9, |B/A| ~ 1e12: the quadratic root
+    // formula -B/2A + sqrt(res) cancels catastrophically) so that this region is sampled at every seed
+    const double fx[3][5] = {{-1, 1, 1.5e-9, 5000, -1000}, {-1, 1, -2e-9, 8000, 1600}, {0, 2, 1.2e-9, -3000, 2500}};
+    for (auto & c : fx) run_line("poly_intabs", "-", {c[0], c[1], c[2], c[3], c[4]}, "smallA_largeB");
+  }
   // ---- binary_interval_search
   {
     const double al1[4] = {0.0, 1.0, 2.5, 7.0};
@@ -636,7 +645,7 @@ static void probes()
   probe_one("search_f64", {-inf, 0.0, 1.0, 2.0}, 0.5, "probe_minus_inf_front");
   probe_one("search_f64", {0.0, 1.0, 2.0, inf}, 0.5, "probe_plus_inf_back");
   probe_one("search_f64", {-inf, 0.0, 1.0, inf}, 0.5, "probe_both_inf");
-  // vector<int> whose span overflows int: *(rght-1) - *left is signed overflow
+  // vector<int> whose span exceeds INT_MAX (before /repo c387525: *(rght-1) - *left overflowed in int)
   probe_one("search_int", {-2000000000.0, -1.0, 0.0, 1.0, 2000000000.0}, 0.5, "probe_int_span_overflow");
   probe_one("search_int", {-2000000000.0, 0.0, 1.0, 2.0, 3.0, 4.0, 5.0, 2000000000.0}, 4.5, "probe_int_span_overflow");
 }
@@ -686,6 +695,7 @@ int main(int argc, char ** argv)
   if (mode == "eval") return eval_mode();
   if (mode == "dump") { dump_tables(); return 0; }
   if (mode == "probe") { probes(); return 0; }
+  if (argc > 2) g_exh_len = std::max(0, std::min(12, std::atoi(argv[2])));
   gen_all(std::atoi(mode.c_str()));
   return 0;
 }
